@@ -447,6 +447,8 @@ def section_runs(ctx):
                                (bool(cfg["halt"]), "halting interface"), (bool(cfg["deferred"]), "deferred names"),
                                (cfg["startCycle"] or cfg["startNode"], "restart point"),
                                (bool(cfg.get("bolSet")), "restart point set inside a BOL hook"),
+                               (cfg["coupling"] and sum(1 for x in cfg["stack"] if x["coupler"]) >= 2,
+                                "two or more couplers on one parameter name"),
                                (0 in cfg["burnSteps"], "zero burn steps")):
                 if flag:
                     ctx.count("config: " + name)
@@ -506,6 +508,22 @@ def directed_configs():
         st[1] = dict(st[1], enabled=False)               # a disabled setter is not called: the run starts at (0, 0)
         out.append(dict(hist, stack=st, halt=[], bolSet=[2, 1, 1]))
         out.append(dict(hist, stack=plain_stack(3), halt=[], bolSet=[2, 1, 1], startCycle=0, startNode=1))
+    # two (and three) tight couplers that share ONE parameter name, with different scripted convergence patterns, coupling on,
+    # several nodes: every coupler's flag counts, not the last one's per parameter
+    cst = plain_stack(3, db=True)
+    for k in (0, 1, 2):
+        cst[k] = dict(cst[k], coupler=(k < 2))
+    nodes = [(c, n) for c in range(2) for n in range(3)]
+    always2 = [[2, c, n, it] for (c, n) in nodes for it in range(6)]          # the LATER coupler converges at once
+    cbase = dict(base, stack=cst, halt=[], coupling=True, maxIters=6)
+    out.append(dict(cbase, conv=always2))                                        # the earlier one never: 6 iterations (the cap)
+    out.append(dict(cbase, conv=always2 + [[1, c, n, 3] for (c, n) in nodes]))   # the earlier one at iteration 3: 4 iterations
+    out.append(dict(cbase, conv=[[1, c, n, it] for (c, n) in nodes for it in range(6)] + [[2, c, n, 1] for (c, n) in nodes],
+                    skip=[1]))                                                   # the later one decides: 2 iterations; cycle 1 exempt
+    cst3 = [dict(x, coupler=(x["id"] != 0)) for x in plain_stack(3, db=True)]
+    out.append(dict(cbase, stack=cst3, maxIters=4,
+                    conv=[[1, c, n, it] for (c, n) in nodes for it in range(4)] + [[3, c, n, it] for (c, n) in nodes for it in range(4)]
+                    + [[2, c, n, 2] for (c, n) in nodes]))                       # the MIDDLE one decides: 3 iterations
     for a in (0.0, 1.0, 0.5):
         out.append(dict(base, stack=plain_stack(2), halt=[], avail=a))
         out.append(dict(base, stack=plain_stack(2), halt=[], avail=a, nCycles=1, burnSteps=[3]))
